@@ -23,7 +23,7 @@ import (
 func TestVerifC02(t *testing.T) {
 	vfMain(t, vfCheck{
 		ID: "C02", Level: "exploration",
-		Rule:        "seeded fully pipelined request programs (depth 1..400; OPEN/OPENDIR/READ/WRITE/CLOSE/FSTAT/FSETSTAT/READDIR on live, stale, bogus and wrong-kind handles, path commands on existing/missing paths, zero-length and maximal reads/writes, known and unknown extended requests) against Server and RequestServer with allocator on/off, GOMAXPROCS in {1,2,16}, seeded delays at the worker/ready/dispatch hooks and in handler ReadAt/WriteAt. A class is (server, allocator, GOMAXPROCS, depth bucket, delay profile); a program is non-trivial when the hook log shows at least one completion-order inversion.",
+		Rule:        "seeded fully pipelined request programs (depth 1..400; OPEN/OPENDIR/READ/WRITE/CLOSE/FSTAT/FSETSTAT/READDIR on live, stale, bogus and wrong-kind handles, path commands on existing/missing paths, zero-length and maximal reads/writes (up to a WRITE whose frame is exactly 256 KiB), known and unknown extended requests) against Server (also read-only) and RequestServer with allocator on/off, GOMAXPROCS in {1,2,16}, seeded delays at the worker/ready/dispatch hooks and in handler ReadAt/WriteAt. A class is (server, allocator, GOMAXPROCS, depth bucket, delay profile); a program is non-trivial when the hook log shows at least one completion-order inversion.",
 		Assumptions: []string{"input stays open until all responses arrived (responses at EOF belong to C07's prefix rule)", "race detector on"},
 		Units: func(tier vfTier, seed uint64) int {
 			if tier == vfThorough {
@@ -76,7 +76,8 @@ func c02Setup(u *vfUnit, e *c02Env) {
 }
 
 // c02Program generates n well-formed requests with unique ids.
-func c02Program(r *vfRand, e *c02Env, n int) []vfPkt {
+func c02Program(r *vfRand, e *c02Env, n int) ([]vfPkt, int) {
+	maxFrames := 0
 	files, dirs, missing := c02Paths(e)
 	anyPath := func() string {
 		switch r.Intn(4) {
@@ -125,6 +126,11 @@ func c02Program(r *vfRand, e *c02Env, n int) []vfPkt {
 				p.Data = []byte{}
 			case 1:
 				p.Data = r.Bytes(32768)
+				if r.Intn(5) == 0 {
+					// the largest legal request: a frame of exactly 256 KiB (length word 262144)
+					p.Data = r.Bytes(262144 - 21 - len(p.Handle))
+					maxFrames++
+				}
 			default:
 				p.Data = r.Bytes(r.Intn(300))
 			}
@@ -165,7 +171,7 @@ func c02Program(r *vfRand, e *c02Env, n int) []vfPkt {
 		}
 		out = append(out, p)
 	}
-	return out
+	return out, maxFrames
 }
 
 func c02Run(u *vfUnit) {
@@ -182,6 +188,11 @@ func c02Run(u *vfUnit) {
 		c02Setup(u, e)
 		depth := []int{1, 2, 9, 40, 150, 400}[(pi+u.Index)%6]
 		cfg := vfSrvCfg{Kind: kind, Alloc: alloc}
+		// every fourth program of the os-backed server runs against a read-only server: refusals
+		// are responses like any other (one each, own id, in order)
+		if kind == vfOS && pi%4 == 3 {
+			cfg.ReadOnly = true
+		}
 		if kind == vfRS {
 			cfg.H = e.store.Handlers(vfHandlerOpt{OpenFile: pi%2 == 0, CmdAll: true, ListAll: pi%3 == 0})
 			if profile > 0 {
@@ -221,8 +232,12 @@ func c02Run(u *vfUnit) {
 			u.Inconclusive("connect: %v", err)
 			return
 		}
-		prog := c02Program(r, e, depth)
+		prog, maxFrames := c02Program(r, e, depth)
 		label := fmt.Sprintf("%v/alloc=%v/procs=%d/depth=%d/profile=%d", kind, alloc, procs, depth, profile)
+		if cfg.ReadOnly {
+			label += "/read-only"
+			u.Count("programs_read_only_server", 1)
+		}
 		// every third program re-uses request ids among in-flight requests (a peer is free to do so):
 		// read-only requests whose replies identify the request by content, not by id
 		dupIDs := pi%3 == 2
@@ -254,7 +269,9 @@ func c02Run(u *vfUnit) {
 				}
 			}
 			u.Count("programs_with_duplicate_ids", 1)
+			maxFrames = 0
 		}
+		u.Count("requests_with_maximal_frame", int64(maxFrames))
 		u.Eval(label)
 		u.Count("programs", 1)
 		u.Count("requests", int64(len(prog)))
